@@ -24,6 +24,8 @@ pub enum Change {
 pub enum Act {
     /// commit one change, optionally preceded by an undo point in the same commit
     Commit { undo_point: bool, change: Change },
+    /// commit a lone undo point (what `add_undo_point(true)` does); spans without changes arise
+    Point,
     /// fetch the undo operations and commit their reversal
     Undo,
     /// fetch the undo operations, commit another change, then commit the stale list
@@ -52,6 +54,7 @@ pub struct UndoSys {
     pub stale: AtomicU64,
     pub after_sync: AtomicU64,
     pub deletes_restored: AtomicU64,
+    pub drains: AtomicU64,
 }
 
 fn valid(tasks: &Tasks, c: &Change) -> bool {
@@ -125,6 +128,7 @@ impl UndoSys {
             stale: AtomicU64::new(0),
             after_sync: AtomicU64::new(0),
             deletes_restored: AtomicU64::new(0),
+            drains: AtomicU64::new(0),
         }
     }
 
@@ -224,6 +228,13 @@ impl Sys for UndoSys {
         }
         let has_changes = s.obs.unsynced.iter().any(|o| !o.is_undo_point());
         let last_is_point = s.obs.unsynced.last().is_some_and(|o| o.is_undo_point());
+        if s.obs.unsynced.iter().filter(|o| o.is_undo_point()).count() < 3 {
+            v.push(Act::Point);
+        }
+        if last_is_point {
+            // an undo span without changes: the fetched list is a lone undo point
+            v.push(Act::Undo);
+        }
         if has_changes && !last_is_point {
             v.push(Act::Undo);
             for c in valid_changes.iter().take(2) {
@@ -246,6 +257,13 @@ impl Sys for UndoSys {
                 n.obs = obs(&mut n.store);
             }
             Act::Sync => self.do_sync(&mut n)?,
+            Act::Point => {
+                n.images.push(n.obs.tasks.clone());
+                crate::util::block_on(with_replica(&mut n.store, Ctl::new(), async |r| {
+                    r.commit_operations(vec![Operation::UndoPoint]).await.map_err(|e| format!("commit-failed: {e:#}"))
+                }))?;
+                n.obs = obs(&mut n.store);
+            }
             Act::Undo => {
                 let fetched = self.fetch(&mut n)?;
                 // what the model expects to be fetched: back to and including the last undo point
@@ -253,11 +271,15 @@ impl Sys for UndoSys {
                 if fetched != s.obs.unsynced[idx..] {
                     return Err("undo-fetch: get_undo_operations did not return the operations back to the last undo point".into());
                 }
+                let fetched_len = fetched.len();
                 let had_delete = fetched.iter().any(|o| matches!(o, Operation::Delete { old_task, .. } if !old_task.is_empty()));
                 let ok = self.reverse(&mut n, fetched)?;
                 n.obs = obs(&mut n.store);
                 self.undos.fetch_add(1, Ordering::Relaxed);
-                if !ok {
+                // a span without changes (the fetched list is a lone undo point) is not a "sequence of
+                // changes": what the call reports is not asserted for it, what it does is
+                let lone_point = fetched_len == 1 && s.obs.unsynced.last().is_some_and(|o| o.is_undo_point());
+                if !ok && !lone_point {
                     return Err("undo-refused: reversing the most recent unsynchronized operations reported failure".into());
                 }
                 let want = if s.obs.unsynced.iter().any(|o| o.is_undo_point()) {
@@ -325,6 +347,39 @@ impl Sys for UndoSys {
     }
 
     fn check(&self, s: &State, _trace: &[Act]) -> Result<bool, String> {
+        // "repeated undo down to the last sync": from every state, fetching and reversing again and
+        // again withdraws every unsynchronized operation, span by span, and ends in the state of the
+        // last sync
+        if !s.obs.unsynced.is_empty() {
+            let mut n = s.clone();
+            let mut left = n.obs.unsynced.len();
+            for _ in 0..=s.obs.unsynced.len() {
+                let fetched = self.fetch(&mut n)?;
+                if fetched.is_empty() {
+                    break;
+                }
+                self.reverse(&mut n, fetched)?;
+                let now = obs(&mut n.store).unsynced.len();
+                if now >= left {
+                    return Err(format!(
+                        "undo-stuck: repeated undo makes no progress: {} unsynchronized operations before and after reversing the fetched list [{}]",
+                        left,
+                        s.obs.unsynced.iter().map(op_shape).collect::<Vec<_>>().join(";")
+                    ));
+                }
+                left = now;
+            }
+            let end = obs(&mut n.store);
+            if !end.unsynced.is_empty() || end.tasks != s.synced_image {
+                return Err(format!(
+                    "undo-drain: repeated undo down to the last sync ends with {} unsynchronized operations and tasks {} but the last synchronized state is {}",
+                    end.unsynced.len(),
+                    tasks_str(&end.tasks),
+                    tasks_str(&s.synced_image)
+                ));
+            }
+            self.drains.fetch_add(1, Ordering::Relaxed);
+        }
         // non-trivial: at least one undo point with changes after it
         Ok(s.obs.unsynced.iter().any(|o| o.is_undo_point()) && !s.obs.unsynced.last().unwrap().is_undo_point())
     }
@@ -356,6 +411,7 @@ pub fn run(opts: &Opts) -> i32 {
         rep.add("stale_undos_checked", sys.stale.load(Ordering::Relaxed));
         rep.add("undo_after_sync_checked", sys.after_sync.load(Ordering::Relaxed));
         rep.add("undos_restoring_a_deleted_populated_task", sys.deletes_restored.load(Ordering::Relaxed));
+        rep.add("repeated_undo_drains_checked", sys.drains.load(Ordering::Relaxed));
         rep.set(&format!("space_{name}"), json!({"depth_requested": depth, "depth_completed": st.depth_completed, "states": st.states, "transitions": st.transitions, "capped": st.capped}));
         if st.capped {
             rep.set("exhaustive", false);
